@@ -170,6 +170,25 @@ def comparison_handlers(repo, res):
             n0, n1 = [norm(e) for e in helper[0].targets[0].elts]
             ok = len(impl) >= 1 and all(len(c.args) >= 2 and any(isinstance(y, ast.Name) and y.id == n0 for y in ast.walk(c.args[0])) and any(isinstance(y, ast.Name) and y.id == n1 for y in ast.walk(c.args[1])) for c in impl) and helper[0].lineno < min(c.lineno for c in impl)
         res.check(ok, f"{h}:helper-first", f.where(), f"np.{h} must bring its operands to a common unit before comparing", rid=r1)
+        # ... and the absolute tolerance with them: atol arrives through *args / **kwargs; what reaches NumPy has passed a
+        # helper that re-expresses a tolerance carrying units in the compared unit (to_value / to / in_units of the unit it is
+        # handed) - NumPy itself would read the bare number of `atol=10*cm` as 10 of whatever unit the data are in
+        tol_ok, found_t = False, "catch-alls reach NumPy as passed"
+        for n_ in ast.walk(f.node):
+            if isinstance(n_, ast.Assign) and isinstance(n_.value, ast.Call) and isinstance(n_.value.func, ast.Name) and isinstance(n_.targets[0], ast.Tuple) and [norm(e) for e in n_.targets[0].elts] == [f.vararg, f.kwarg]:
+                hn = n_.value.func.id
+                hf = af.funcs.get(hn, [None])[0]
+                if hf is None or len(n_.value.args) != 3 or [norm(x) for x in n_.value.args[1:]] != [f.vararg, f.kwarg]:
+                    continue
+                up = hf.params[0]
+                convs = [c for c in ast.walk(hf.node) if isinstance(c, ast.Call) and isinstance(c.func, ast.Attribute) and c.func.attr in ("to_value", "to", "in_units") and c.args and norm(c.args[0]) == up]
+                srcs = {norm(c.func.value) for c in convs}
+                pos = any(s_.endswith("[1]") for s_ in srcs)
+                kw = any("'atol'" in s_ or '"atol"' in s_ for s_ in srcs)
+                unit_arg = norm(n_.value.args[0])
+                tol_ok = pos and kw and "units" in unit_arg and n_.lineno < min(c.lineno for c in impl)
+                found_t = f"{hn}: converts {sorted(srcs)} into {unit_arg}"
+        res.check(tol_ok, f"{h}:atol-converted", f.where(), f"np.{h} hands an absolute tolerance that carries units to NumPy as a bare number: atol=10*cm against data in m is read as 10 m, atol=1*kg is accepted for lengths", "positional and keyword atol converted into the compared unit before the NumPy call", found_t, rid=r1)
     for h in ("array_equal", "array_equiv"):
         f = af.func(h)
         res.fn(f)
@@ -299,6 +318,8 @@ def decorators(repo, res):
 
 
 MUTANTS = [
+    Mutant("isclose-atol-not-converted", AF, "isclose", '    args, kwargs = _comp_tolerances(getattr(a, "units", NULL_UNIT), args, kwargs)\n', "", ("C19-R1",)),
+    Mutant("tolerance-helper-forgets-keyword", AF, "_comp_tolerances", 'kwargs = dict(kwargs, atol=kwargs["atol"].to_value(units))', 'kwargs = dict(kwargs)', ("C19-R1",)),
     Mutant("desired-not-converted", ARR, "allclose_units", "        des = des.in_units(act.units)", "        des.in_units(act.units)", ("C19-R1",)),
     Mutant("strip-before-convert", ARR, "allclose_units", "    try:\n        at = at.in_units(act.units)\n    except (UnitOperationError, UnitConversionError):\n        return False\n", "    at = at\n", ("C19-R1", "C19-R3")),
     Mutant("isclose-skips-helper", AF, "isclose", "    a, b = _array_comp_helper(a, b)\n", "", ("C19-R1", "C06-R3")),
